@@ -48,15 +48,21 @@ def check_method(F, rep, name, ty, size):
     little = T.call("endian::EndianParse::is_little", ("Self",), [T.param(1)])
     want_le = T.agg("adt", "result::Result", 0, "Ok", [T.call("%s::from_le_bytes" % ty, (), [arr])])
     want_be = T.agg("adt", "result::Result", 0, "Ok", [T.call("%s::from_be_bytes" % ty, (), [arr])])
+    # the same SIZE bytes taken in two steps: the tail from the cursor, then its first chunk (`data.get(off..)?.first_chunk::<SIZE>()?`)
+    tailv = T.payload(T.call("[T]::get", ("u8", "ops::RangeFrom<usize>"), [data, T.agg("adt", "ops::RangeFrom", 0, "RangeFrom", [off0])]), "Some")
+    arr2 = T.deref(T.payload(T.call("[T]::first_chunk", ("u8", str(size)), [tailv]), "Some"))
+    arr3 = T.deref(T.payload(T.call("[T]::first_chunk", ("u8", str(size)), [T.payload(got, "Some")]), "Some"))      # data.get(off..end)?.first_chunk()
+    alt_le = {pnorm(T.agg("adt", "result::Result", 0, "Ok", [T.call("%s::from_le_bytes" % ty, (), [a_])])) for a_ in (arr2, arr3)}
+    alt_be = {pnorm(T.agg("adt", "result::Result", 0, "Ok", [T.call("%s::from_be_bytes" % ty, (), [a_])])) for a_ in (arr2, arr3)}
     seen = {"le": 0, "be": 0, "err": 0}
     okall = True
     for t, st in leaves:
         offv = an.read(st, off_lv)
         if t.op == "agg" and t.args[3] == "Ok":
             # compared in provenance normal form: insensitive to generic-argument spelling and to helper extraction
-            if pnorm(t) == pnorm(want_le) and ("true", little) in st.facts:
+            if (pnorm(t) == pnorm(want_le) or pnorm(t) in alt_le) and ("true", little) in st.facts:
                 seen["le"] += 1
-            elif pnorm(t) == pnorm(want_be) and ("false", little) in st.facts:
+            elif (pnorm(t) == pnorm(want_be) or pnorm(t) in alt_be) and ("false", little) in st.facts:
                 seen["be"] += 1
             elif size == 1 and t.args[4][0] is T.deref(T.payload(T.call("[T]::get", ("u8", "usize"), [data, off0]), "Some")):
                 # a single byte has no byte order: `*data.get(off)?` is the same read for every spec
